@@ -88,6 +88,25 @@ def deep_docs(fmt):
             docs.append([0x5b, 0x23, 0x69, 1] * d + [0x54])
             docs.append([0x7b, 0x69, 1, 0x61] * d + [0x5a] + [0x7d] * d)
             docs.append([0x5b, 0x24, 0x5b, 0x23, 0x69, 1] * (d // 2) + [0x24, 0x69, 0x23, 0x69, 1, 5])
+        # ... with elements / members AFTER the deep branch at every level (what an enclosing container saved - element
+        # counts, states - is needed again on the way up)
+        if fmt == "json":
+            docs.append(list(b"[" * d + b"1" + b",2]" * d))
+            docs.append(list(b'{"a":' * d + b'"x"' + b',"b":1}' * d))
+            docs.append(list(b'[{"k":' * (d // 2) + b"null" + b',"l":[]},7]' * (d // 2)))
+        elif fmt == "cborl":
+            docs.append([0x82] * d + [0x01] + [0x02] * d)
+            docs.append([0x82] * d + [0x61, 0x78] + [0x02] * d)
+            docs.append([0xa2, 0x61, 0x61] * d + [0xf6] + [0x61, 0x62, 0x02] * d)
+            docs.append([0x9f] * d + [0x01] + [0x02, 0xff] * d)
+            docs.append([0x83, 0x00] * d + [0x40] + [0x61, 0x7a] * d)
+            docs.append([0xbf, 0x61, 0x6b, 0x82] * (d // 2) + [0x20] + [0x03, 0x61, 0x6c, 0x04, 0xff] * (d // 2))
+        else:
+            docs.append([0x5b] * d + [0x69, 1] + [0x69, 2, 0x5d] * d)
+            docs.append([0x5b, 0x23, 0x69, 2] * d + [0x54] + [0x46] * d)
+            docs.append([0x7b, 0x69, 1, 0x61] * d + [0x5a] + [0x69, 1, 0x62, 0x54, 0x7d] * d)
+            docs.append([0x7b, 0x23, 0x69, 2, 0x69, 1, 0x61] * d + [0x5a] + [0x69, 1, 0x62, 0x54] * d)
+            docs.append([0x5b, 0x23, 0x69, 2] * d + [0x53, 0x55, 1, 0x78] + [0x53, 0x55, 1, 0x79] * d)
     return docs
 
 
@@ -425,8 +444,20 @@ def stream_cases(ctx, prop, kind, shapes, fmts=("json", "ubjson", "cborl"), swee
                     opts = [dict(OPTS0)]
                 for o in opts:
                     cases.append(case(prop, kind, fmt, stream=st, opts=dict(o), origin="GenEvents"))
+                if kind == "roundtrip" and n % 4 == 0:
+                    # the bytes are read by a parser OBJECT that has read other complete documents before (Parse per document)
+                    prev = REUSE_PREV[fmt]
+                    cases.append(case(prop, kind, fmt, stream=st, opts=dict(opts[0]), sub=dict(reuse=[prev[(n // 4) % len(prev)], prev[(n // 4 + 3) % len(prev)]]),
+                                      origin="GenEvents, read by a parser that has read other documents"))
                 n += 1
     return number(cases)
+
+
+# complete documents whose LAST token is of every kind (a number ended by the end of input, a float, a text, a container, ...)
+REUSE_PREV = dict(
+    json=[list(t) for t in (b"0.5", b"1e2", b'"x\\n"', b"[1.5]", b"-7", b"12345678901234567890", b"true", b'{"k":2.5}', b"-0.0", b"1E+2 ")],
+    ubjson=[list(t) for t in (b"d\x3f\x00\x00\x00", b"SU\x01a", b"[#U\x01i\x01", b"HU\x031.5", b"Z", b"{U\x01kD\x3f\xf0\x00\x00\x00\x00\x00\x00}", b"[$d#U\x01\x3f\x00\x00\x00", b"Cx")],
+    cborl=[list(t) for t in (b"\xfa\x3f\x00\x00\x00", b"\x61\x61", b"\x81\x01", b"\xfb\x3f\xf0\x00\x00\x00\x00\x00\x00", b"\xf6", b"\xa1\x61\x6b\xfa\x3f\x00\x00\x00", b"\x9f\xff", b"\x40")])
 
 
 def stream_nontrivial(c):
@@ -768,6 +799,14 @@ def c10(ctx):
                 opts = dict(ALL_OPTS[n % 8]) if cons == "json" else dict(OPTS0)
                 cases.append(case("C10", "extcmp", cons if cons not in ("plain", "unfold") else "json", stream=st, opts=opts, sub=dict(consumer=cons), origin="GenEvents"))
                 n += 1
+            if st and st[0]["k"] == "objS":
+                # ... and through visitors.ExpectObjVisitor in front of the consumer (the first document if it is an object: the
+                # wrapper forwards the members of ONE object, the harness supplies the enclosing object)
+                first = st[: gotypes.value_spans(st)[0][1]] if gotypes.value_spans(st) and gotypes.value_spans(st)[0][0] == 0 else []
+                if any(e["k"] in ("xarr", "xobj") or e["ty"] in ("strref", "keyref") for e in first):
+                    for cons in ("json", "ubjson", "plain"):
+                        cases.append(case("C10", "extcmp", cons if cons != "plain" else "json", stream=first, opts=dict(OPTS0), sub=dict(consumer=cons, via="expectobj"),
+                                          origin="GenEvents through visitors.ExpectObjVisitor"))
     # member names recurring across sibling objects, by reference, into the unfolder with its key cache on: OnKeyRef must mean OnKey
     names = [b"a", b"b", b"c", b"", b"dd"]
     for hist in ([0, 1, 2, 0], [0, 1, 0, 1, 2, 0], [3, 0, 1, 3], [0, 1, 2, 3, 4, 0, 2, 4]):
@@ -1133,6 +1172,24 @@ def c17(ctx):
                 (Ta, Va), (_, Vb) = holders[0](a), holders[0](b)
                 cases.append(case("C17", "goreuse", "go", sub=dict(component="iter", history=[], T=dict(k="slice", e=[Ta]), V=dict(k="slice", e=[Va, Vb, Va])),
                                   origin="interface field alternating between dynamic types within a document"))
+    # a history of generic documents nested beyond the unfolder's pre-allocated scratch slots (with a member before and a sibling
+    # object after the nested child at every level), then shallow / empty / deep probes below interface{}
+    LT = dict(k="struct", f=[Fd("A", dict(k="int")), Fd("N", IFT), Fd("Z", IFT)])
+
+    def ordered(d, base=0):
+        x = dict(k="iface", dyn=[dict(k="int")], e=[Iv(base + d)])
+        for j in range(d):
+            sib = dict(k="iface", dyn=[MF], e=[dict(k="map", m=[dict(key=list(b"y%d" % j), val=dict(k="iface", dyn=[dict(k="int")], e=[Iv(base + 100 + j)]))])])
+            x = dict(k="iface", dyn=[LT], e=[dict(k="struct", f=[Iv(base + j), x, sib])])
+        return x
+    empty = dict(k="iface", dyn=[MF], e=[dict(k="map", m=[])])
+    small = dict(k="iface", dyn=[MF], e=[dict(k="map", m=[dict(key=list(b"x"), val=dict(k="iface", dyn=[dict(k="int")], e=[Iv(1)]))])])
+    for d in (3, 4, 5, 6, 9):
+        for probe in (empty, small, ordered(2, 500), ordered(d, 700), dict(k="iface", dyn=[dict(k="slice", e=[IFT])], e=[dict(k="slice", e=[empty, small])])):
+            for via in ("", "json", "cborl"):
+                for hist in ([ordered(d)], [ordered(d), small]):
+                    cases.append(case("C17", "goreuse", "go", sub=dict(component="unfolder", history=[dict(T=IFT, V=h) for h in hist], T=IFT, V=probe, via=via),
+                                      origin="unfolder history, generic document nested %d deep" % d))
     # documents of different shape read into ONE input buffer: the member names of the probe land on the bytes of the previous document's names
     def sv(x):
         return dict(k="str", ty="string", v=list(x))
@@ -1806,6 +1863,13 @@ def enc_doc(fmt, v):
     if fmt == "cborl":
         def head(m, n):
             return [m * 32 + n] if n < 24 else ([m * 32 + 24, n] if n < 256 else [m * 32 + 25, n >> 8, n & 255])
+        if v is None or v is True or v is False:
+            return [0xf6 if v is None else (0xf5 if v else 0xf4)]
+        if isinstance(v, int):
+            m, a = (0, v) if v >= 0 else (1, -1 - v)
+            return head(m, a) if a < 65536 else ([m * 32 + 26] + list(a.to_bytes(4, "big")) if a < 2 ** 32 else [m * 32 + 27] + list(a.to_bytes(8, "big")))
+        if isinstance(v, float):
+            return [0xfb] + list(struct.pack(">d", v))
         if isinstance(v, str):
             b = v.encode()
             return head(3, len(b)) + list(b)
@@ -1816,6 +1880,19 @@ def enc_doc(fmt, v):
         return head(5, len(v)) + [x for k, e in v.items() for x in enc_doc(fmt, k) + enc_doc(fmt, e)]
     def ulen(n):
         return [ord("U"), n] if n < 256 else [ord("I"), n >> 8, n & 255]
+    if v is None or v is True or v is False:
+        return [ord("Z") if v is None else (ord("T") if v else ord("F"))]
+    if isinstance(v, int):
+        if -128 <= v < 128:
+            return [ord("i"), v & 255]
+        if -2 ** 31 <= v < 2 ** 31:
+            return [ord("l")] + list(v.to_bytes(4, "big", signed=True))
+        if -2 ** 63 <= v < 2 ** 63:
+            return [ord("L")] + list(v.to_bytes(8, "big", signed=True))
+        d = str(v).encode()
+        return [ord("H")] + ulen(len(d)) + list(d)
+    if isinstance(v, float):
+        return [ord("D")] + list(struct.pack(">d", v))
     if isinstance(v, str):
         b = v.encode()
         return [ord("S")] + ulen(len(b)) + list(b)
@@ -1842,6 +1919,9 @@ def c15(ctx):
     for n in range(ndocs):
         S = lambda: rnd.choice(ALIAS_STRS)
         val = {"a": S(), "b": S(), "s": [S(), S()], "m": {S() or "k": S(), "z": S()}, "i": S(), "n": {"q": S(), "r": [S()]}, "k": [S(), S()]}
+        if n % 2:      # tokens of every other kind in front of the texts (whatever a number, literal or container end leaves behind)
+            val = {"num": 12, "a": S(), "flt": -2.5, "b": S(), "mix": [1, S(), 2.5e3, S(), True, S(), None, S()], "s": [S(), S()], "big": 12345678901234567890,
+                   "m": {S() or "k": S(), "z": S()}, "i": S(), "n": {"q": S(), "r": [7, S()]}, "k": [S(), S()]}
         fol = {"a": S() + "2", "b": S(), "s": [S()], "m": {"y": S()}, "i": S(), "n": {"q": S()}, "k": [S()]}
         for fmt in ("json", "ubjson", "cborl"):
             doc, follow = enc_doc(fmt, val), enc_doc(fmt, fol)
